@@ -89,6 +89,7 @@ type Executor struct {
 	Params   map[string]int
 	ShardBits, ShardID int
 	MaxSwitches int
+	shallowTypes []types.Type
 	eo         *eoCtx
 	reachCache map[*ssa.BasicBlock]map[int]bool
 }
